@@ -11,6 +11,42 @@ CLAIMED = {
     note='Trusts std Mutex/Condvar/atomics and rustc MIR construction + callee resolution; OS process-table races and panics inside the determination thread are not decided.',
     design='5/C20'),
 }
+E1_NOTE = ('Trusts rustc MIR + callee resolution, the fact serialisation and the Python engines. Input-validity assumptions A1-A9 '
+           '(printed in the evidence) restrict line classes per abstract state; output writes are assumed to succeed; payloads and string '
+           'contents are not tracked, so ordering/exactly-once/flush discipline is decided, not character-level integrity.')
+CLAIMED.update({
+ 'C01': dict(
+    technique='abstract interpretation of the line state machine over MIR (finite typestate domain x line classes, disjunctive, fixpoint): ORD-W/ORD-B/ORD-M, DROP, ONCE, EOF, TOTAL rules at events inferred from field provenance',
+    text='Decides the structural half of C01 for inputs of any length: no rendered or buffered hunk line is overtaken by a direct write, header or merge-conflict block; '
+         'no buffer is cleared unpainted; the hunk-line handler consumes each claimed line exactly once; nothing is held back at end of input; a total fall-through handler exists. '
+         'Not decided: that the characters of a line survive prefix removal / tab expansion / truncation.',
+    note=E1_NOTE, design='4, 5/C01'),
+ 'C02': dict(
+    technique='MIR guarded-by / last-write / must-pass rules on set_options (C02-a) + abstract interpretation pinned to color_only with newline accounting through the decoration sink functions (C02-b)',
+    text='Decides that --color-only forces side_by_side=false and the three decoration styles to none on every path of option processing, and that in that mode every handler path that claims an input line '
+         'emits exactly one output line (written newlines + deferrals, +1 for a released hunk header) in order. Not decided: that the visible text of each line is unchanged.',
+    note=E1_NOTE + ' "none" parses to NoDecoration and the forced options reach Config unchanged (unit tests). blame/grep/show renderings are outside the contract.', design='5/C02'),
+ 'C04': dict(
+    technique='abstract interpretation in pass-through mode (no marker, no recogniser matches) from every reachable line-start state + DECLINE-MUT typestate rule + MIR who-may-write/guarded-by rule on the ingest functions',
+    text='Decides that a line without marker is claimed only by the fall-through writer, as exactly one write of raw_line after a flush; that no declining handler has modified line/raw_line; '
+         'and that ingestion rewrites raw_line only under the CR / max-line-length guards. Not decided: the bytes those rewrites compute; hyperlinks added to raw commit lines on a tty.',
+    note=E1_NOTE, design='5/C04'),
+ 'C10': dict(
+    technique='abstract interpretation (ordering rules at section-boundary code, EOF) + MIR must-assign rule for per-file fields + hash-iteration-order lint (consumer classification) + who-may-call for entropy sources',
+    text='Decides that nothing of the previous section is overtaken by or lost at a section boundary / end of input, that the `diff ` line handler reassigns all eight per-file fields, '
+         'and that no iteration over a std hash container reachable from main feeds an order-sensitive consumer (run-to-run determinism). Not decided: the concatenation equation itself.',
+    note=E1_NOTE + ' Determinism is relative to the same environment (process table, clock for relative blame timestamps).', design='5/C10'),
+ 'C11': dict(
+    technique='abstract interpretation (STREAM rule: output_buffer empty at every claiming exit of the hunk-line handler) + path-based MIR rule for the line_buffer_size guard + instantiation / who-may-construct checks for reader and sink',
+    text='Decides that everything rendered is written before the hunk-line handler returns, that the number of held-back lines is bounded by the line_buffer_size guard on every path to a push, '
+         'that the renderer reads line-wise from stdin/child stdout and that no buffering writer is interposed. Not decided: timing and OS-level buffering.',
+    note=E1_NOTE, design='5/C11'),
+ 'C14': dict(
+    technique='abstract interpretation (DROP-HDR typestate for the captured hunk header; ORD-W at header writers) + MIR guarded-by/follows rule for the file-header pairing + table rule for the /dev/null file choice',
+    text='Decides that a captured hunk header is always handed to an emitter before its state is left, that the composed file header is written only under handled != current and then marked handled, '
+         'and that the hunk header names minus_file exactly when plus_file is /dev/null. Not decided: path parsing and labels.',
+    note=E1_NOTE, design='5/C14'),
+})
 NOT_APPLICABLE = {
  'C06': 'Soundness/minimality of a dynamic-programming token alignment and a distance threshold over all string pairs: arithmetic on runtime values; no structural necessary condition beyond what the 35 unit tests already pin (DESIGN.md section 6).',
  'C07': 'Panel widths, wrap points and truncation are arithmetic over display widths of runtime strings; no pairing/ownership/table structure carries the property (DESIGN.md section 6).',
